@@ -14,7 +14,7 @@
    means_check the statement of the theorem as an executable test (used to TEST the statement on
                generated flows before proving it, and as a cross-check in the harness). *)
 From Coq Require Import List NArith Bool String Ascii Arith.
-From RPFT Require Import Base.Sexp Base.PyStr Base.SexpEq Base.Result Gen.Tables Flow.Lts Flow.Flow Flow.RowSem Exp.ToRows.
+From RPFT Require Import Base.Sexp Base.PyStr Base.SexpEq Base.Result Gen.Tables Flow.Lts Flow.Flow Flow.RowSem Exp.FlatSem Exp.ToRows.
 Import ListNotations.
 Local Open Scope N_scope.
 
@@ -252,24 +252,27 @@ Definition row_payload (tp : str) (p : pay U) : option sexp :=
 Definition acts_of (tp : str) (p : pay U) : list sexp :=
   match row_payload tp p with Some x => [x] | None => [] end.
 
-Definition abs_type (r : row U str) : rtype :=
-  let tp := r_type r in
-  let p := r_pay r in
-  if str_eqb tp t_go_to then RowSem.TGoto (r_goto r)
-  else if str_eqb tp t_loose_exit then TLoose
-  else if str_eqb tp t_wait then
-    RowSem.TNode EWait [] (Some (dec_wait (match parse_dec (fld_s p (lit "no_response")) with Some t => t | None => 0 end)
-                                          (fld_s p (lit "save_name"))))
+(* class, actions and initial decision of a node row (rowref.row_sexp) *)
+Definition abs_nkind (tp : str) (p : pay U) : eclass * list sexp * option rdec :=
+  if str_eqb tp t_wait then
+    (EWait, [], Some (dec_wait (match parse_dec (fld_s p (lit "no_response")) with Some t => t | None => 0 end)
+                               (fld_s p (lit "save_name"))))
   else if str_eqb tp t_split_value then
-    RowSem.TNode ESplit [] (Some (dec_split (fld_s p (lit "mainarg_expression")) (fld_s p (lit "save_name"))))
-  else if str_eqb tp t_split_group then
-    RowSem.TNode EGroup [] (Some (dec_split s_contact_groups (fld_s p (lit "save_name"))))
-  else if str_eqb tp t_split_random then
-    RowSem.TNode ERandom [] (Some (dec_random (fld_s p (lit "save_name"))))
-  else if str_eqb tp t_start_new_flow then RowSem.TNode EFlow (acts_of tp p) (Some dec_enter)
-  else if str_eqb tp t_call_webhook then RowSem.TNode EOutcome (acts_of tp p) (dec_webhook (fld_s p (lit "save_name")))
-  else if str_eqb tp t_transfer_airtime then RowSem.TNode EOutcome (acts_of tp p) (dec_airtime (fld_s p (lit "save_name")))
-  else RowSem.TNode EAction (acts_of tp p) None.
+    (ESplit, [], Some (dec_split (fld_s p (lit "mainarg_expression")) (fld_s p (lit "save_name"))))
+  else if str_eqb tp t_split_group then (EGroup, [], Some (dec_split s_contact_groups (fld_s p (lit "save_name"))))
+  else if str_eqb tp t_split_random then (ERandom, [], Some (dec_random (fld_s p (lit "save_name"))))
+  else if str_eqb tp t_start_new_flow then (EFlow, acts_of tp p, Some dec_enter)
+  else if str_eqb tp t_call_webhook then (EOutcome, acts_of tp p, dec_webhook (fld_s p (lit "save_name")))
+  else if str_eqb tp t_transfer_airtime then (EOutcome, acts_of tp p, dec_airtime (fld_s p (lit "save_name")))
+  else (EAction, acts_of tp p, None).
+
+(* over any type of row ids: the temporary ids of the exporter and the final strings *)
+Definition abs_kind {I} (r : row U I) : @fkind I :=
+  if str_eqb (r_type r) t_go_to then FKGoto (r_goto r)
+  else if str_eqb (r_type r) t_loose_exit then FKLoose
+  else let '(c, a, d) := abs_nkind (r_type r) (r_pay r) in FKNode c a d.
+
+Definition abs_type (r : row U str) : rtype := to_rtype (abs_kind r).
 
 Definition abs_from (f : str) : efrom :=
   match f with [] => FBlank | _ => if str_eqb f s_start then FStart else FRow f end.
@@ -278,13 +281,19 @@ Definition abs_cond (c : cond U) : econd :=
 Definition abs_edge (e : edge U str) : redge := mkEdge (abs_from (ToRows.e_from e)) (abs_cond (ToRows.e_cond e)).
 
 (* strip = the sheet was written with --strip_uuids: the `_nodeId` column is excluded *)
-Definition abs_name (strip_uuids : bool) (r : row U str) : str :=
+Definition abs_name {I} (strip_uuids : bool) (r : row U I) : str :=
   if strip_uuids then []
   else match assoc_str f_node_uuid (r_pay r) with Some (PU u) => ustr u | _ => [] end.
 
 Definition abs_row (strip_uuids : bool) (r : row U str) : RowSem.row :=
   mkRow (abs_type r) (ToRows.r_id r) (abs_name strip_uuids r) (map abs_edge (ToRows.r_edges r)).
 Definition abs_rows (strip_uuids : bool) (rows : list (row U str)) : list RowSem.row := map (abs_row strip_uuids) rows.
+
+(* the same reading as a flat sheet over the temporary ids *)
+Definition fabs_from (t : tid U) : @ffrom (tid U) := match t with TStart => FFStart | _ => FFRow t end.
+Definition fabs_edge (e : edge U (tid U)) : @fedge (tid U) := mkFEdge (fabs_from (ToRows.e_from e)) (abs_cond (ToRows.e_cond e)).
+Definition fabs_row (strip_uuids : bool) (r : row U (tid U)) : @frow (tid U) :=
+  mkFRow (abs_kind r) (ToRows.r_id r) (abs_name strip_uuids r) (map fabs_edge (ToRows.r_edges r)).
 
 (* ---------------------------------------------------------------- the statement, executable *)
 (* 0 = the export fails; 1 = the rows have no reference meaning; 2 = flow not simulated by the reference;
